@@ -206,6 +206,41 @@ pub fn run(ctx: &Ctx) -> i32 {
                 })));
             }
         }
+        // the k inputs handed over by collect()/extend() from an iterator that SELECTS them out of a large pool of candidates
+        // (a filter over 4,000,000 slots: its upper size hint is the pool, its yield is k): heap follows k, not the pool
+        {
+            let (fa, fb) = (&fa, &fb);
+            let a = &a;
+            const POOL: usize = 4_000_000;
+            ops.push(("union k=3 collected into raw::OpBuilder from a filter over a pool of 4,000,000 candidates".into(), Box::new(move || {
+                let step = POOL / 3;
+                let ob: OpBuilder = (0..POOL).filter(|i| i % step == 0 && i / step < 3).map(|i| if i / step == 1 { fb } else { fa }).collect();
+                let mut s = ob.union();
+                let mut c = 0u64;
+                while let Some(_) = s.next() {
+                    c += 1;
+                }
+                c
+            })));
+            ops.push(("intersection k=2+2 extended into map::OpBuilder / symmetric_difference k=2 collected into set::OpBuilder, both from filters over 4,000,000 candidates".into(), Box::new(move || {
+                let m = Map::new(&a[..]).unwrap();
+                let st = fst::Set::new(&a[..]).unwrap();
+                let step = POOL / 2;
+                let mut ob = fst::map::OpBuilder::new().add(&m).add(&m);
+                ob.extend((0..POOL).filter(|i| i % step == 0).map(|_| &m));
+                let mut s = ob.intersection();
+                let mut c = 0u64;
+                while let Some(_) = s.next() {
+                    c += 1;
+                }
+                let ob: fst::set::OpBuilder = (0..POOL).filter(|i| i % step == 7).map(|_| &st).collect();
+                let mut s = ob.symmetric_difference();
+                while let Some(_) = s.next() {
+                    c += 1;
+                }
+                c + 1
+            })));
+        }
         // operations whose ONE call to next() has to skip over ~N candidate keys before it can answer: intersections of (nearly)
         // disjoint inputs, symmetric differences and differences of identical inputs, and the relations built on them
         {
